@@ -46,7 +46,7 @@ def draw_cfg(rng, profile, tier):
                                             'small3', 'pos'])),
         'alpha': rng.choice(p.get('alphas', ['ascii', 'ascii', 'num', 'punct',
                                              'slash', 'unicode', 'long',
-                                             'natsort'])),
+                                             'natsort', 'ws'])),
         'ctrl_md': int(rng.random() < p.get('ctrl_md', 0.0)),
         'pool': rng.choice(p.get('pools', [2, 3, 4, 6, 6])),
         'len': rng.choice(p.get('lens', [6, 10, 16, 24, 40, 60])),
@@ -222,13 +222,13 @@ class Gen:
                 ev['n'] = 0
         elif name == 'sort':
             ev.update(fam=rng.randrange(CB.N_SORT), explicit=rng.randrange(2),
-                      fault=self._fault(0))
+                      fault=self._fault(0), form=rng.randrange(3))
         elif name == 'sort_order':
             if n <= 4 and rng.random() < 0.5:
                 code = [rng.randrange(n - j) for j in range(n)]
             else:
                 code = [rng.randrange(12) for _ in range(n)]
-            ev.update(perm=code, form=rng.randrange(2), unk=self._unk(),
+            ev.update(perm=code, form=rng.randrange(3), unk=self._unk(),
                       salt=rng.randrange(50),
                       dup=rng.choice([1, 2]) if cfg['faults'] in ('F2', 'all')
                       and rng.random() < 0.1 else 0)
